@@ -67,10 +67,13 @@ pub fn gen_http_request(r: &mut Rng) -> Msg {
     let (t, _) = addr_variants(r);
     let mut s = format!("CONNECT {} HTTP/1.1\r\n", t);
     let mut headers = vec![];
-    for _ in 0..r.below(4) {
-        let (k, v) = *r.pick(&[("Host", "example.com:80"), ("Proxy-Connection", "keep-alive"), ("User-Agent", "x y z"), ("X-A", "b: c")]);
+    // a few header fields, sometimes many (62..66, 100: around any plausible field-count limit), values with multi-byte UTF-8
+    let n_headers = match r.below(12) { 0 => 62 + r.below(5), 1 => 100, _ => r.below(4) };
+    for i in 0..n_headers {
+        let (k, v) = *r.pick(&[("Host", "example.com:80"), ("Proxy-Connection", "keep-alive"), ("User-Agent", "x y z"), ("X-A", "b: c"), ("X-Note", "caf\u{e9} \u{6f22}\u{5b57}"), ("Host", "b\u{fc}cher.example:443")]);
+        let k = if n_headers > 8 { format!("{}-{}", k, i) } else { k.to_string() };
         s += &format!("{}: {}\r\n", k, v);
-        headers.push((k.to_string(), v.to_string()));
+        headers.push((k, v.to_string()));
     }
     s += "\r\n";
     let expect = format!("{:?}", HttpRequest { method: "CONNECT".into(), resource: t.to_string(), version: "HTTP/1.1".into(), headers });
@@ -81,10 +84,12 @@ pub fn gen_http_response(r: &mut Rng) -> Msg {
     let (code, status) = *r.pick(&[(200u16, "Connection established"), (200, "OK"), (403, "Forbidden"), (503, "Service unavailable"), (407, "Proxy Authentication Required")]);
     let mut s = format!("HTTP/1.1 {} {}\r\n", code, status);
     let mut headers = vec![];
-    for _ in 0..r.below(3) {
-        let (k, v) = *r.pick(&[("Session-Id", "7"), ("Content-Length", "0"), ("Udp-Bind-Address", "127.0.0.1:9"), ("Server", "x")]);
+    let n_headers = match r.below(12) { 0 => 62 + r.below(5), 1 => 100, _ => r.below(3) };
+    for i in 0..n_headers {
+        let (k, v) = *r.pick(&[("Session-Id", "7"), ("Content-Length", "0"), ("Udp-Bind-Address", "127.0.0.1:9"), ("Server", "x"), ("Server", "caf\u{e9}/\u{1f600}")]);
+        let k = if n_headers > 8 { format!("{}-{}", k, i) } else { k.to_string() };
         s += &format!("{}: {}\r\n", k, v);
-        headers.push((k.to_string(), v.to_string()));
+        headers.push((k, v.to_string()));
     }
     s += "\r\n";
     let expect = format!("{:?}", HttpResponse { version: "HTTP/1.1".into(), code, status: status.into(), headers });
